@@ -179,8 +179,8 @@ m("c19-window-from-last-protocol", "C19", P, "        while queue and (not queue
 m("c19-sub-window-counts-all-addresses", "C19", P, "        if len(self.factory.windowSubscribe[self.addr]) >= self._window:\n", "        if sum(len(w) for w in self.factory.windowSubscribe.values()) >= self._window:\n")
 
 # ---- C20 arguments
-m("c20-window-accepts-17", "C20", B, "        if not (0 < n <= self.MAX_WINDOW):\n", "        if not (0 < n <= self.MAX_WINDOW + 1):\n")
-m("c20-window-accepts-0", "C20", B, "        if not (0 < n <= self.MAX_WINDOW):\n", "        if not (0 <= n <= self.MAX_WINDOW):\n")
+m("c20-window-accepts-17", "C20", B, "        if not (1 <= n <= self.MAX_WINDOW):\n", "        if not (1 <= n <= self.MAX_WINDOW + 1):\n")
+m("c20-window-accepts-0", "C20", B, "        if not (1 <= n <= self.MAX_WINDOW):\n", "        if not (0 <= n <= self.MAX_WINDOW):\n")
 m("c20-timeout-bounds-strict", "C20", B, "        if not ( 1 <= timeout <= self.TIMEOUT_MAX_INITIAL ):\n", "        if not ( 1 < timeout < self.TIMEOUT_MAX_INITIAL ):\n")
 m("c20-publish-qos3-accepted", "C20", P, "        if not ( 0<= request.qos < 3):\n            raise QoSValueError(\"publish()\",request.qos)\n", "        if not ( 0<= request.qos < 4):\n            raise QoSValueError(\"publish()\",request.qos)\n")
 m("c20-refused-publish-enqueued", "C20", P, "        try:\n            request.encode()\n        except Exception as e:\n            return defer.fail(e)\n\n        request.protocol = self", "        try:\n            request.encode()\n        except ValueError as e:\n            self.factory.queuePublishTx[self.addr].append(request)\n            return defer.fail(e)\n        except Exception as e:\n            return defer.fail(e)\n\n        request.protocol = self")
